@@ -57,6 +57,12 @@ func C07(c *core.Ctx) {
 	c.RuleText = "instances: Return instructions of the two lookup functions, the two branches of InsertData, the eviction loop, CsLRU methods, the admit/serve call sites. Non-trivial = has a branch edge or path to decide."
 	p := c.P
 	// ---- R7.4 (shared with C17 R17.3)
+	// ---- R7.5b (shared with C08 R8.4) pruning the PIT/CS name tree unlinks only nodes
+	// that hold nothing — in particular no cached Data: otherwise a cached, unevicted,
+	// fresh packet (still counted, still in the replacement queue) is no longer found
+	c.Import(C08, "R7.5b", "pruning the name tree can unlink a node (or an ancestor) that still holds a cached packet: the packet stays counted and queued but an exact-name lookup no longer finds it", 1, func(k string) bool {
+		return strings.HasPrefix(k, "R8.4:") && strings.Contains(k, "pitCsTreeNode")
+	})
 	c.Import(C17, "R7.4", "the Content Store capacity set by management is not bounded before the int conversion: a negative capacity makes the eviction loop empty the store and dereference a nil queue front", 1, func(k string) bool { return strings.HasPrefix(k, "R17.3:capacity-upper-bound") })
 	sl := &core.Slicer{P: p}
 
